@@ -40,6 +40,10 @@ type HandleCase struct {
 // Version 3 of every secret is the empty byte string (the service accepts and serves it like any
 // other value); it is the only version of a name without self-describing bytes, so an empty read
 // of a handle stands for version 3 of that handle's name.
+// The undeclared names are path variants of one another: to the service (and so to the store) a
+// name is an opaque string, "u/k", "u//k" and "u/./k" are three secrets with three values.
+const c12U1, c12U2, c12U3 = "u/k", "u//k", "u/./k"
+
 func c12Value(name string, ver uint32) []byte {
 	if ver == 3 {
 		return []byte{}
@@ -84,7 +88,7 @@ func runC12(t *testing.T, c HandleCase) (*h.Violation, h.Info) {
 	var info h.Info
 	c12stuck.Begin(c)
 	svc := fake.NewSvc()
-	all := []string{"d1", "d2", "u1", "u2", "u3", "c1", "c2"}
+	all := []string{"d1", "d2", c12U1, c12U2, c12U3, "c1", "c2"}
 	cur := map[string]uint32{}
 	for _, n := range all {
 		svc.Set(n, 1, c12Value(n, 1))
@@ -464,7 +468,7 @@ func runC12(t *testing.T, c HandleCase) (*h.Violation, h.Info) {
 				continue // (a closed store may decline new lookups; the gates below would wait for requests that never come)
 			}
 			var names []string
-			for _, n := range []string{"u1", "u2", "u3"} {
+			for _, n := range []string{c12U1, c12U2, c12U3} {
 				if !known[n] && len(names) < 2 {
 					names = append(names, n)
 				}
@@ -530,7 +534,7 @@ func runC12(t *testing.T, c HandleCase) (*h.Violation, h.Info) {
 			info.Class("overlapping-lookups-of-different-names")
 		case "idle-handle":
 			// a handle that is obtained now and not touched again until the very end (possibly after Close)
-			if closed || known[ev.Name] || (ev.Name != "u1" && ev.Name != "u2" && ev.Name != "u3") {
+			if closed || known[ev.Name] || (ev.Name != c12U1 && ev.Name != c12U2 && ev.Name != c12U3) {
 				continue
 			}
 			hd, err := st.LookupSecret(context.Background(), ev.Name)
@@ -702,7 +706,7 @@ func runC12(t *testing.T, c HandleCase) (*h.Violation, h.Info) {
 				continue
 			}
 			name := ""
-			for _, n := range []string{"u1", "u2", "u3"} {
+			for _, n := range []string{c12U1, c12U2, c12U3} {
 				if !known[n] {
 					name = n
 					break
@@ -785,7 +789,7 @@ func genHandleCase(rt *rapid.T) HandleCase {
 		return HEvent{
 			Back: rapid.IntRange(0, 3).Draw(rt, "back") == 0,
 			Kind: rapid.SampledFrom([]string{"set", "set", "set", "poll", "poll", "refresh", "failed-poll", "clock-back", "lookup", "expire", "yield", "yield", "parked-poll", "parked-lookup", "handle-during-poll", "joiner-timeout", "double-lookup", "idle-handle", "leader-cancelled", "close"}).Draw(rt, "kind"),
-			Name: rapid.SampledFrom([]string{"d1", "d1", "d2", "u1", "u2", "u3", "c1", "c2"}).Draw(rt, "name"),
+			Name: rapid.SampledFrom([]string{"d1", "d1", "d2", c12U1, c12U2, c12U3, "c1", "c2"}).Draw(rt, "name"),
 		}
 	}), h.LenBias(rt, 3, 30), 30).Draw(rt, "events")
 	return c
@@ -793,7 +797,7 @@ func genHandleCase(rt *rapid.T) HandleCase {
 
 var c12 = &h.Campaign[HandleCase]{
 	Prop: "C12", Sub: "handles",
-	Rule: "rapid, under the race detector: 2-8 reader goroutines spin over every handle (declared ones and ones published by lookups) while a driver executes 3-30 generated events: service change, poll through the store's poller, explicit Refresh, lookup of a new name, expiry sweep (clock jump + poll), Close, two overlapping lookups of different unknown names (the first parked at the service), a handle that is obtained and then left untouched until the very end, and 'parked' polls/lookups during which the service holds the request while all handles are read under a 5 s real-time watchdog; values are self-describing (name#version#padding of version-dependent length); per read: parses as a value the service served for that name, per reader versions never go backwards, a version whose installing poll was acknowledged before the read is the minimum; non-trivial = reads overlapped an install (counted from an 'installing' flag sampled around each read); distinct by (scenario, run) because schedules are sampled",
+	Rule: "rapid, under the race detector: 2-8 reader goroutines spin over every handle (declared ones and ones published by lookups) while a driver executes 3-30 generated events: service change, poll through the store's poller, explicit Refresh, lookup of a new name, expiry sweep (clock jump + poll), Close, two overlapping lookups of different unknown names (the first parked at the service), a handle that is obtained and then left untouched until the very end, and 'parked' polls/lookups during which the service holds the request while all handles are read under a 5 s real-time watchdog; values are self-describing (name#version#padding of version-dependent length); per read: parses as a value the service served for that name, per reader versions never go backwards, a version whose installing poll was acknowledged before the read is the minimum; the undeclared names are path variants of one another (u/k, u//k, u/./k: three secrets); non-trivial = reads overlapped an install (counted from an 'installing' flag sampled around each read); distinct by (scenario, run) because schedules are sampled",
 	Quick: 1200, Thorough: 150000,
 	Gen:   genHandleCase,
 	Run:   runC12,
